@@ -130,7 +130,12 @@ func (sr *ServiceRouter) RouteHTTP(r *http.Request) (grpcadapter.ClientConn, HTT
 		return nil, HTTPRoute{}, httperr.Status(http.StatusMethodNotAllowed, status.Errorf(codes.Unimplemented, http.StatusText(http.StatusMethodNotAllowed)))
 	}
 
+	// RawPath is set only when the default encoding of the path differs from the requested one,
+	// so fall back to Path for all the other requests, as done in PatternRouter.RouteHTTP.
 	rpcName := r.URL.RawPath
+	if rpcName == "" {
+		rpcName = r.URL.Path
+	}
 
 	svc, method, ok := parseRPCName(rpcName)
 	if !ok {
